@@ -138,6 +138,9 @@ func (r *RoundRobin) nextServer() (*server, error) {
 			if r.currentWeight <= 0 {
 				r.currentWeight = maxWeight
 				if r.currentWeight == 0 {
+					// do not leave the iterator parked mid-rotation at level 0:
+					// the next call would return a zero-weight server (0 >= 0)
+					r.resetState()
 					return nil, errors.New("all servers have 0 weight")
 				}
 			}
